@@ -21,7 +21,7 @@ def run(ctx, out):
     n_gs, n_ms, n_cl = (2000, 2500, 100) if tier == 'quick' else (20000, 25000, 1000)
     graphs = [K.gen_graph(rng, ties=(k % 2 == 0), small=(k % 2 == 0)) for k in range(n_gs)]
     K.check_gs(graphs, out, KEEP, PROP, 'gs')
-    classes = ['chain', 'long_rise', 'long_storm', 'random', 'events', 'edges']
+    classes = ['chain', 'contested', 'long_rise', 'long_storm', 'contested', 'random', 'events', 'edges']
     recs = [KNOWN_WITNESS] + [G.gen_record(rng, classes[k % len(classes)], nmax=(60 if k % 10 == 0 else 30))
                               for k in range(n_ms)]
     K.check_ms(recs, out, KEEP, PROP, 'ms')
